@@ -29,6 +29,14 @@ _min.update({
     'real-order:1': 15000, 'real-order:2': 15000,
     'recv-view:slice': 30000, 'recv-view:T': 8000, 'recv-view:sliceT': 5000,
 })
+# aliased invocations (monitors alias, alias.random): pair x alias-combination cases
+_min.update({
+    'max:alias-combinations': 2537, 'distinct alias-pair': 517,
+    'alias-judged:scalar/': 15000, 'alias-judged:vector/dense': 18000, 'alias-judged:vector/sparse': 18000,
+    'alias-judged:matrix/dense': 35000, 'alias-judged:matrix/sparse': 900,
+    'alias-operand:recv': 60000, 'alias-operand:view': 40000, 'alias-operand:T': 15000, 'alias-operand:elem': 12000,
+    'alias-both-rejected:MdotV': 500, 'alias-both-rejected:VdotM': 500,  # the API's alias rejection, by both variants
+})
 for _op in ['Abs', 'Add', 'AppendVector', 'At', 'Col', 'ConstAt', 'Diag', 'Div', 'Equals', 'Exp', 'Greater', 'Iterator', 'IteratorFrom',
             'JointIterator', 'Log', 'Log1p', 'LogAdd', 'LogSub', 'MaddM', 'MaddS', 'Max', 'MdivM', 'MdivS', 'MdotM', 'MdotV', 'Min', 'MmulM',
             'MmulS', 'MsubM', 'MsubS', 'Mul', 'Neg', 'Outer', 'Pow', 'Row', 'Set', 'Sign', 'Slice', 'Smaller', 'Sqrt', 'Sub', 'VaddS', 'VaddV',
@@ -41,6 +49,11 @@ CFG = {
             'package (iterator types are reached through return types). Monitor "pairs": one case per discovered pair, running the directed '
             'operand sets (every sign combination of receiver and scalar operands x derivative order for scalars; 12 zero-pattern triples, zero '
             'divisors, value-equal operands for Equals for containers) followed by seeded random sets (120 quick / 1500 thorough per pair). '
+            'Monitors "alias" / "alias.random": every pair whose operands can alias the receiver (a container parameter of the receiver\'s type: the '
+            'receiver itself, a full-range Slice of it, for matrices its transpose; a scalar parameter of a container\'s element type: one of '
+            'its elements; a scalar parameter of a scalar receiver\'s type: the receiver) is invoked in BOTH variants under every combination '
+            'of these alias options (2537 pair x combination cases, 40 / 400 operand draws each) and the two results are compared with each '
+            'other; an alias that one variant rejects must be rejected by the other. '
             'Monitor "random": one random invocation per case (random pair, dyadic k/8 values, small integers for integer types, derivative '
             'seeds for Real types with order 0/1/2, absent / stored-zero / zero-with-derivative entries, receivers that are slices or transposes '
             'of a larger parent, occasional dimension mismatches and out-of-range indices). Both variants are invoked through reflect on '
